@@ -440,7 +440,7 @@ def _micro_ops(rng, S):
     ct_oaep = PKCS1_OAEP.new(S.rsa, randfunc=rng.randbytes).encrypt(msg)
     ct_v15 = PKCS1_v1_5.new(S.rsa, randfunc=lambda n: bytes(rng.randrange(1, 256) for _ in range(n))).encrypt(msg)
     sentinel = rb(16)
-    bad_v15 = bytes([ct_v15[0] ^ 1]) + ct_v15[1:]
+    bad_v15 = ct_v15[:-1] + bytes([ct_v15[-1] ^ 1])      # still below the modulus
     oaep = PKCS1_OAEP.new(S.rsa)             # cipher objects private to this thread, shared (read-only) key
     v15 = PKCS1_v1_5.new(S.rsa)
     ops.append(("rsa-decrypt", lambda: oaep.decrypt(ct_oaep) + v15.decrypt(ct_v15, sentinel) + v15.decrypt(bad_v15, sentinel)))
